@@ -8,8 +8,9 @@
 set -e
 cd "$(dirname "$0")"
 mkdir -p _build && cd _build
-C=../../../coq
-coqc -Q $C/theories/SyncFut SyncFut $C/theories/SyncFut/ExtractSyncFut.v > extract.log 2>&1
-rm -f $C/theories/SyncFut/ExtractSyncFut.vo $C/theories/SyncFut/ExtractSyncFut.vos $C/theories/SyncFut/ExtractSyncFut.vok $C/theories/SyncFut/ExtractSyncFut.glob $C/theories/SyncFut/.ExtractSyncFut.aux
+# the Coq development is read only here: the extraction file is compiled on a copy, so that nothing is written next to it
+C=${COQDIR:-$(cd ../../../coq && pwd)}
+cp $C/theories/SyncFut/ExtractSyncFut.v .
+coqc -Q $C/theories/SyncFut SyncFut ExtractSyncFut.v > extract.log 2>&1
 cp ../replay_syncfut.ml .
 ocamlfind ocamlopt -O2 -w -a -package str syncfutmodel.mli syncfutmodel.ml replay_syncfut.ml -linkpkg -o replay_syncfut 2>/dev/null || ocamlfind ocamlopt -w -a -package str syncfutmodel.mli syncfutmodel.ml replay_syncfut.ml -linkpkg -o replay_syncfut
